@@ -26,14 +26,14 @@ Theorem C03_vp9_roundtrip_seq : forall max frames,
 Proof. exact roundtrip_seq. Qed.
 Print Assumptions C03_vp9_roundtrip_seq.
 
-(* a key frame (profile 0, 640x480: bytes 0x82 0x49 0x83 0x42 ...) over three packets, limit 14,
+(* a key frame (profile 0, 640x480: bytes 0x82 0x49 0x83 0x42 ...) over two packets, limit 14,
    picture ID 32767 (wraps to 0), and a non-key frame (0x86 ...) *)
 Example C03_vp9_example :
   let key := [130; 73; 131; 66; 0; 39; 240; 29; 240; 1; 2; 3] in
   valid_frame key /\ valid_frame [134; 9] /\
   option_map (fun pss => (map (fun ps => map (fun p => nlen (ppayload p)) ps) pss, snd (dec_run dinit (concat pss))))
              (enc_many 14 65535 32767 [key; [134; 9]])
-  = Some ([[14; 14; 4]; [5]], [DMore; DMore; DFrame key; DFrame [134; 9]]).
+  = Some ([[14; 12]; [5]], [DMore; DFrame key; DFrame [134; 9]]).
 Proof.
   cbv zeta. split; [|split].
   - split; [eexists _, _, _; vm_compute; reflexivity|]. unfold cap, GVG.Consts.vp9_max_frame. cbn. lia.
